@@ -160,6 +160,13 @@ func WorkerMain(t *testing.T, reg map[string]Harness) {
 	if mode == "" {
 		t.Skip("dsim worker: DSIM_MODE not set")
 	}
+	// The coordinator runs every worker under an address-space limit (4 GB). What is alive at any
+	// moment is small, but some checks turn over large buffers quickly (reading a table file costs a
+	// 4 MB buffer; a crash phase reads hundreds), buffers allocated while a collection is marking count
+	// as live for that cycle, and on a machine whose cores are all busy marking takes long: the next
+	// heap goal then doubles a gigabyte and the process dies of the limit, not of its data. A soft
+	// memory limit makes the collector work harder long before that.
+	debug.SetMemoryLimit(1200 << 20)
 	outPath := os.Getenv("DSIM_OUT")
 	out, err := os.Create(outPath)
 	if err != nil {
